@@ -54,6 +54,9 @@ CLAIMED = {
  "C18": ("invariant over generated structures: residue partition of atom-graph generations (creation-order hint verified, constraint search fallback) against the stochastic atom graph; determinism under equal seeds",
          "Schulz-Zimm molecules of every archetype are generated through AtomGraph with seeded generators; every generated atom names its stochastic node; the atoms must partition into whole token copies with all atoms and internal bonds, every bond between copies must correspond to a non-static edge of the stochastic atom graph between those nodes with the same bond order, no attachment atom may carry more inter-residue bonds than descriptors, copies form a tree, the graph is connected, to_mol() sanitises, at most 200000 random choices are made, and two generations with equal seeds give equal molecules.",
          "Trusted: 'stochastic_node' node attribute (public), reference fragments, RDKit sanitisation.", "DESIGN.md §2 C18"),
+ "C19": ("generated linear directed chains queried against a closed-form reference law, with metamorphic checks (atom renumbering, sum over lengths, foreign molecules)",
+         "Molecules of 1-2 blocks of one directed repeat unit (generated chemistry incl. symmetric and locally symmetric tokens), prefix or end-group start, suffix or end-group end, six families; for every chain length up to a reference tail of 1e-9 the reported ensemble probability must equal the product of the closed-form window probabilities, must be the same for RDKit's canonical and two random atom orders, the values must sum to 1, and foreign molecules (changed atom, a block without repeat unit) must get 0. Two recorded defects of get_ensemble_prob are reported as KNOWN-FINDING by structural signature.",
+         "Trusted: gbsv/refdist.py closed forms; reference molecules assembled from the AST; P(T<0) negligible by construction.", "DESIGN.md §2 C19"),
  "C15": ("breaking operators on generated valid instances with a must-be-rejected oracle (Hypothesis) + byte-level mutation and coverage-guided fuzzing (atheris/libFuzzer) under a deterministic step budget",
          "Generated-input search: 17 breaking operators, each producing an invalid string by construction, are applied at generated positions to valid well-posed molecules of every archetype; the broken string must end in an error at parse or at generate (non-generable for negative weights / missing distribution) - a produced molecule is the violation. Termination of the five constructors is explored with Hypothesis byte mutations of docs/tests strings and two atheris campaigns (seeded and empty corpus) under a line-event budget.",
          "Trusted: each operator's claim that its output is invalid (stated per operator in gbsv/checks/c15.py); termination is bounded liveness: 20000+2000*len line events inside gbigsmiles.", "DESIGN.md §2 C15"),
